@@ -111,7 +111,12 @@ fn judge_time(prop: &str, known: &[KnownEntry], t: &TimeSpec, self_ctx: &Ctx, is
             RevokedSpec { serial: vec![7], time: *t, reason: Some(1), invalidity: inv(400) },
             RevokedSpec { serial: vec![8], time: *t, reason: Some(4), invalidity: inv(-400) },
             RevokedSpec { serial: vec![9], time: *t, reason: None, invalidity: inv(-1) },
+            // neighbours with the same wall-clock reading under another offset (another instant), and the same instant spelled differently
+            RevokedSpec { serial: vec![10], time: TimeSpec { unix: t.unix - 3600, nanos: t.nanos, offset: t.offset + 3600 }, reason: None, invalidity: None },
+            RevokedSpec { serial: vec![11], time: TimeSpec { unix: t.unix, nanos: t.nanos, offset: t.offset - 1800 }, reason: None, invalidity: Some(*t) },
         ];
+        // (entries shifted off the calendar by the construction above are not inputs of C09)
+        let revoked: Vec<RevokedSpec> = revoked.into_iter().filter(|r| (0..=9999).contains(&r.time.utc_year())).collect();
         let cst = CrlState { this_update: this, next_update: next, revoked, ..CrlState::default() };
         let ev = eval_crl(&cst, issuer);
         out.transitions += ev.transitions;
@@ -131,7 +136,7 @@ fn judge_time(prop: &str, known: &[KnownEntry], t: &TimeSpec, self_ctx: &Ctx, is
     }
     // normalise loci of per-entry findings
     for f in findings.iter_mut() {
-        for i in 0..5 {
+        for i in 0..7 {
             let pre = format!("tbs.revoked[{}].", i);
             if f.locus.starts_with(&pre) {
                 f.locus = f.locus.replace(&pre, "");
